@@ -148,7 +148,7 @@ func (commander *Commander) exec(ctx context.Context, parameters Parameters, scr
 			WithPostings(result.Postings...).
 			WithMetadata(result.Metadata).
 			WithDate(script.Timestamp).
-			WithID(commander.nextTXID()).
+			WithID(commander.nextTXID(parameters.DryRun)).
 			WithReference(script.Reference)
 		verifhook.Yield(ctx, "txid", "id", tx.ID)
 
@@ -275,12 +275,15 @@ func (commander *Commander) chainLog(log *ledger.Log) *ledger.ChainedLog {
 	return commander.lastLog
 }
 
-func (commander *Commander) nextTXID() *big.Int {
+func (commander *Commander) nextTXID(dryRun bool) *big.Int {
 	commander.mu.Lock()
 	defer commander.mu.Unlock()
 
 	ret := big.NewInt(0).Add(commander.lastTXID, big.NewInt(1))
-	commander.lastTXID = ret
+	if !dryRun {
+		// a preview answers with the id the transaction would get, without consuming it
+		commander.lastTXID = ret
+	}
 
 	return ret
 }
